@@ -1,2 +1,185 @@
-//! File-image probe (engines E2/E3).
-pub fn main() {}
+//! File-image probe (engines E2/E3): observe what a `.mv2` image exposes, without trusting it.
+//!
+//! `mvprobe raw <file>`   decode header / footer / TOC directly (no Memvid), print the layout
+//! `mvprobe obs <file>…`  for each image (argv or one path per stdin line): open it the requested
+//!                        way in this process under catch_unwind and print one JSON line with the
+//!                        logical observation (frames, payload digests, timeline, searches, …)
+
+use std::io::{BufRead, Read};
+use std::panic::{AssertUnwindSafe, catch_unwind};
+use std::path::Path;
+
+use memvid_core::io::header::HeaderCodec;
+use memvid_core::types::{Frame, FrameStatus, SearchRequest, TimelineQuery, Toc};
+use memvid_core::{Memvid, find_last_valid_footer};
+use serde_json::{Value, json};
+
+use crate::{Args, hex_digest};
+
+pub fn raw_layout(path: &Path) -> Value {
+    let bytes = match std::fs::read(path) {
+        Ok(b) => b,
+        Err(e) => return json!({"error": e.to_string()}),
+    };
+    let mut out = json!({"len": bytes.len()});
+    if bytes.len() < 4096 {
+        out["error"] = json!("shorter than header");
+        return out;
+    }
+    let mut hb = [0u8; 4096];
+    hb.copy_from_slice(&bytes[..4096]);
+    let header = match HeaderCodec::decode(&hb) {
+        Ok(h) => h,
+        Err(e) => {
+            out["error"] = json!(format!("header: {e}"));
+            return out;
+        }
+    };
+    out["header"] = json!({"footer_offset": header.footer_offset, "wal_offset": header.wal_offset, "wal_size": header.wal_size,
+        "wal_checkpoint_pos": header.wal_checkpoint_pos, "wal_sequence": header.wal_sequence, "toc_checksum": hex::encode(&header.toc_checksum[..8])});
+    let Some(fs) = find_last_valid_footer(&bytes) else {
+        out["error"] = json!("no valid footer");
+        return out;
+    };
+    out["footer"] = json!({"footer_offset": fs.footer_offset, "toc_offset": fs.toc_offset, "generation": fs.footer.generation, "toc_len": fs.footer.toc_len});
+    match Toc::decode(fs.toc_bytes) {
+        Ok(toc) => {
+            let frames: Vec<Value> = toc.frames.iter().map(|f| json!({"id": f.id, "off": f.payload_offset, "len": f.payload_length, "status": format!("{:?}", f.status), "role": format!("{:?}", f.role), "enc": format!("{:?}", f.canonical_encoding), "parent": f.parent_id, "uri": f.uri})).collect();
+            out["frames"] = json!(frames);
+            let seg = |o: u64, l: u64| json!([o, l]);
+            out["regions"] = json!({
+                "time_index": toc.time_index.as_ref().map(|m| seg(m.bytes_offset, m.bytes_length)),
+                "lex": toc.indexes.lex.as_ref().map(|m| seg(m.bytes_offset, m.bytes_length)),
+                "vec": toc.indexes.vec.as_ref().map(|m| seg(m.bytes_offset, m.bytes_length)),
+                "memories": toc.memories_track.as_ref().map(|m| seg(m.bytes_offset, m.bytes_length)),
+                "mesh": toc.logic_mesh.as_ref().map(|m| seg(m.bytes_offset, m.bytes_length)),
+                "sketch": toc.sketch_track.as_ref().map(|m| seg(m.bytes_offset, m.bytes_length)),
+                "tantivy_segments": toc.segment_catalog.tantivy_segments.iter().map(|d| seg(d.common.bytes_offset, d.common.bytes_length)).collect::<Vec<_>>(),
+                "lex_segments": toc.indexes.lex_segments.iter().map(|d| seg(d.bytes_offset, d.bytes_length)).collect::<Vec<_>>(),
+            });
+            out["ticket"] = json!({"seq_no": toc.ticket_ref.seq_no, "capacity": toc.ticket_ref.capacity_bytes, "issuer": toc.ticket_ref.issuer});
+        }
+        Err(e) => out["error"] = json!(format!("toc: {e}")),
+    }
+    out
+}
+
+fn frame_obs(mem: &mut Memvid, f: &Frame, content: bool) -> Value {
+    let mut v = json!({"id": f.id, "uri": f.uri, "status": format!("{:?}", f.status), "role": format!("{:?}", f.role), "parent": f.parent_id,
+        "ts": f.timestamp, "supersedes": f.supersedes, "superseded_by": f.superseded_by, "title": f.title, "track": f.track, "tags": f.tags, "labels": f.labels});
+    if content && f.status == FrameStatus::Active {
+        v["payload"] = match mem.frame_canonical_payload(f.id) {
+            Ok(b) => json!({"len": b.len(), "b3": hex_digest(&b)}),
+            Err(e) => json!({"err": crate::drive::hist::err_kind(&e)}),
+        };
+        v["blob"] = match mem.blob_reader(f.id) {
+            Ok(mut r) => {
+                let mut buf = Vec::new();
+                match r.read_to_end(&mut buf) {
+                    Ok(_) => json!({"len": buf.len(), "b3": hex_digest(&buf)}),
+                    Err(e) => json!({"err": format!("io:{}", e.kind())}),
+                }
+            }
+            Err(e) => json!({"err": crate::drive::hist::err_kind(&e)}),
+        };
+    }
+    v
+}
+
+/// Logical observation of an open handle.
+pub fn observe(mem: &mut Memvid, queries: &[String], deep: bool) -> Value {
+    let n = mem.frame_count() as u64;
+    let mut frames = Vec::new();
+    for id in 0..n {
+        match mem.frame_by_id(id) {
+            Ok(f) => frames.push(frame_obs(mem, &f, true)),
+            Err(e) => frames.push(json!({"id": id, "err": crate::drive::hist::err_kind(&e)})),
+        }
+    }
+    let mut out = json!({"frame_count": n, "frames": frames});
+    if deep {
+        let tl = mem.timeline(TimelineQuery { limit: None, since: None, until: None, reverse: false });
+        out["timeline"] = match tl {
+            Ok(es) => json!(es.iter().map(|e| json!([e.frame_id, e.timestamp])).collect::<Vec<_>>()),
+            Err(e) => json!({"err": crate::drive::hist::err_kind(&e)}),
+        };
+        let mut sr = Vec::new();
+        for q in queries {
+            let req = SearchRequest { query: q.clone(), top_k: 50, snippet_chars: 80, uri: None, scope: None, cursor: None, as_of_frame: None, as_of_ts: None, no_sketch: true, acl_context: None, acl_enforcement_mode: Default::default() };
+            sr.push(match mem.search(req) {
+                Ok(r) => { let mut ids: Vec<u64> = r.hits.iter().map(|h| h.frame_id).collect(); ids.sort_unstable(); ids.dedup(); json!({"q": q, "frames": ids}) }
+                Err(e) => json!({"q": q, "err": crate::drive::hist::err_kind(&e)}),
+            });
+        }
+        out["searches"] = json!(sr);
+        out["stats"] = match mem.stats() {
+            Ok(s) => json!({"frames": s.frame_count, "active": s.active_frame_count, "seq_no": s.seq_no, "vectors": s.vector_count}),
+            Err(e) => json!({"err": crate::drive::hist::err_kind(&e)}),
+        };
+        out["cards"] = json!(mem.memory_card_count());
+        out["ticket"] = { let t = mem.current_ticket(); json!({"seq_no": t.seq_no, "capacity": t.capacity_bytes, "issuer": t.issuer}) };
+    }
+    out
+}
+
+/// Open one image (`how` = open | ro) and observe; every failure mode becomes a field.
+pub fn probe_image(path: &Path, how: &str, queries: &[String], deep: bool) -> Value {
+    let t0 = std::time::Instant::now();
+    let res = catch_unwind(AssertUnwindSafe(|| {
+        let opened = if how == "ro" { Memvid::open_read_only(path) } else { Memvid::open(path) };
+        match opened {
+            Ok(mut mem) => {
+                let mut o = observe(&mut mem, queries, deep);
+                o["open"] = json!("ok");
+                o
+            }
+            Err(e) => json!({"open": "err", "kind": crate::drive::hist::err_kind(&e), "error": e.to_string()}),
+        }
+    }));
+    let mut v = match res {
+        Ok(v) => v,
+        Err(p) => {
+            let msg = p.downcast_ref::<String>().cloned().or_else(|| p.downcast_ref::<&str>().map(|s| s.to_string())).unwrap_or_default();
+            json!({"open": "panic", "message": msg})
+        }
+    };
+    v["path"] = json!(path.to_string_lossy());
+    v["how"] = json!(how);
+    v["ms"] = json!(t0.elapsed().as_millis() as u64);
+    v
+}
+
+pub fn main() {
+    let args = Args::parse();
+    let mode = args.pos.first().cloned().unwrap_or_default();
+    // the panic message is captured through catch_unwind; remember the location for the report
+    std::panic::set_hook(Box::new(|info| {
+        if let Some(loc) = info.location() {
+            eprintln!("PANIC-AT {}:{}", loc.file(), loc.line());
+        }
+    }));
+    match mode.as_str() {
+        "raw" => {
+            for p in &args.pos[1..] {
+                println!("{}", serde_json::to_string(&raw_layout(Path::new(p))).unwrap());
+            }
+        }
+        "obs" => {
+            let how = args.str("how").unwrap_or("open").to_string();
+            let deep = !args.flag("shallow");
+            let queries: Vec<String> = args.str("queries").map(|q| q.split(',').map(str::to_string).collect()).unwrap_or_default();
+            let mut paths: Vec<String> = args.pos[1..].to_vec();
+            if paths.is_empty() {
+                paths = std::io::stdin().lock().lines().map_while(Result::ok).collect();
+            }
+            for p in paths {
+                let v = probe_image(Path::new(&p), &how, &queries, deep);
+                println!("{}", serde_json::to_string(&v).unwrap());
+            }
+        }
+        other => {
+            eprintln!("unknown mode {other}");
+            std::process::exit(2);
+        }
+    }
+}
